@@ -48,6 +48,8 @@ package utils
 //@   ensures [newLeafOrdered] old(leafQ(jo, job) && !(job.Queue in jo.queueNodes)) && job.Queue in jo.queueNodes && scheduler_util.swo(jo.queueNodes[job.Queue].children.queue.lessFn) ==> scheduler_util.pqOrdered(jo.queueNodes[job.Queue].children)
 //@   ensures [keepsBestOld] old(leafQ(jo, job) && job.Queue in jo.queueNodes && jo.queueNodes[job.Queue].children.queue.lessFn != nil) && scheduler_util.swo(old(jo.queueNodes[job.Queue].children.queue.lessFn)) ==> (forall j int, i int :: 0 <= j && j < old(len(jo.queueNodes[job.Queue].children.queue.items)) && 0 <= i && i < len(old(jo.queueNodes[job.Queue]).children.queue.items) && !scheduler_util.pqHas(old(jo.queueNodes[job.Queue]).children, old(jo.queueNodes[job.Queue].children.queue.items[j]), len(old(jo.queueNodes[job.Queue]).children.queue.items)) ==> !scheduler_util.lessV(old(jo.queueNodes[job.Queue].children.queue.lessFn), old(jo.queueNodes[job.Queue].children.queue.items[j]), old(jo.queueNodes[job.Queue]).children.queue.items[i]))
 //@   ensures [inv] mapOK(jo) && parentsOK()
+//@   trust [recorded] pushed(job)
+//@   note trust [recorded]: ghost bookkeeping, not a claim about the code - pushed(j) is DEFINED as "j has been handed to PushJob" (the contract language has no ghost assignment inside a verified body)
 //@ end
 // the job's queue is a leaf queue (has no child queues)
 //@ define leafQ(jo *JobsOrderByQueues, job *podgroup_info.PodGroupInfo) bool = len(jo.ssn.ClusterInfo.Queues[job.Queue].ChildQueues) == 0
@@ -78,14 +80,22 @@ package utils
 //@ define flagsHold(jo *JobsOrderByQueues, j *podgroup_info.PodGroupInfo) bool = (jo.options.FilterNonPreemptible ==> j.Preemptibility == v2alpha2.Preemptible) && (jo.options.FilterUnready ==> ready(j)) && (jo.options.FilterNonPending ==> len(j.PodStatusIndex[pod_status.Pending]) > 0) && queueOK(jo, j)
 //@ define memberOf(m map[common_info.PodGroupID]*podgroup_info.PodGroupInfo, j *podgroup_info.PodGroupInfo) bool = exists k in m :: m[k] == j
 
+// C16 (added by helper "pq"; acceptance test seeded/C16d): "never places a lower-priority one while leaving a higher-priority
+// one unplaced" needs every candidate to be OFFERED to its queue's bounded heap, which then keeps the best ones
+// (scheduler_util.(*PriorityQueue).Push [keepsBestOld] [keepsBestNew]): [allEligiblePushed] every given job that passes the
+// switched-on filters is handed to PushJob (stated for orders without the active-allocated filter, i.e. the pending-job
+// orders of allocate / preempt / reclaim / consolidation; with that filter GetAllPodsMap's contract has no "nothing is
+// missing" direction). C10 (seeded/C10d): PushJob is only called with a job whose queue is known (its precondition [queueKnown]).
 //@ func (*JobsOrderByQueues).InitializeWithJobs
-//@   props C06
+//@   props C06 C10 C16
 //@   requires jobsOrder != nil && jobsOrder.ssn != nil && jobsOrder.ssn.ClusterInfo != nil
 //@   requires forall k in jobsToOrder :: podgroup_info.allTasksOK(jobsToOrder[k]) && podgroup_info.setsOK(jobsToOrder[k])
 //@   requires forall q in jobsOrder.ssn.ClusterInfo.Queues :: jobsOrder.ssn.ClusterInfo.Queues[q] != nil
 //@   modifies family(pushed(jobsToOrder[""])), family(jobsOrder.queueNodes[*]), family(jobsOrder.rootNodes), family(jobsOrder.rootNodes.queue), family(jobsOrder.rootNodes.maxQueueSize), family(jobsOrder.queueNodes[""].queue), family(jobsOrder.queueNodes[""].children), family(jobsOrder.queueNodes[""].needsReorder), family(jobsOrder.queueNodes[""].parent), family(jobsOrder.queueNodes[""].isLeaf), family(jobsOrder.rootNodes.queue.items[*])
 //@   loop 1
 //@     invariant forall j *podgroup_info.PodGroupInfo :: pushed(j) && !old(pushed(j)) ==> old(flagsHold(jobsOrder, j)) && old(memberOf(jobsToOrder, j))
+//@     invariant !jobsOrder.options.FilterNonActiveAllocated ==> (forall k in visited :: old(flagsHold(jobsOrder, jobsToOrder[k])) ==> pushed(jobsToOrder[k]))
+//@   ensures [allEligiblePushed] !jobsOrder.options.FilterNonActiveAllocated ==> (forall k in jobsToOrder :: old(flagsHold(jobsOrder, jobsToOrder[k])) ==> pushed(jobsToOrder[k]))
 //@   ensures [pushedOnlyFiltered] forall j *podgroup_info.PodGroupInfo :: pushed(j) && !old(pushed(j)) ==> old(flagsHold(jobsOrder, j))
 //@   ensures [pushedOnlyGiven] forall j *podgroup_info.PodGroupInfo :: pushed(j) && !old(pushed(j)) ==> old(memberOf(jobsToOrder, j))
 //@ end
